@@ -117,73 +117,59 @@ Proof.
     destruct (is_dir_wt s p && negb (is_some (lookup p (r_wt s)))); apply add_names_ok_shape.
 Qed.
 
+Lemma commit_tail_ok : forall o parents0 s1 s',
+  commit_tail o parents0 s1 = (None, s') ->
+  exists parents, s' = rupdate_head (Z.of_nat (List.length (r_commits s1)))
+                                    (w_commits s1 (r_commits s1 ++ [mkCmt (r_idx s1) parents])).
+Proof.
+  intros o parents0 s1 s'. unfold commit_tail.
+  destruct (if cm_amend o then _ else _) as [e0|parents]; [discriminate|].
+  destruct (is_nil parents && is_nil (r_idx s1) && negb (cm_allow_empty o)); [discriminate|].
+  assert (Hfin : commit_finish parents s1 = (None, s') ->
+                 s' = rupdate_head (Z.of_nat (List.length (r_commits s1)))
+                                   (w_commits s1 (r_commits s1 ++ [mkCmt (r_idx s1) parents]))).
+  { unfold commit_finish. intro H. now inversion H. }
+  destruct parents as [|p0 ps]; [intro H; eexists; apply Hfin; exact H|].
+  destruct (rtree_of s1 p0); [|discriminate].
+  destruct (fmap_eqb (r_idx s1) f && negb (cm_allow_empty o)); [discriminate|].
+  intro H; eexists; apply Hfin; exact H.
+Qed.
+
 Lemma commit_ok_shape : forall o s s',
   commit o s = (None, s') ->
+  let s1 := if commit_stores_index o s then w_idx s (auto_add s) else s in
   exists parents,
-    let s1 := if cm_all o then w_idx s (auto_add s) else s in
     s' = rupdate_head (Z.of_nat (List.length (r_commits s)))
                       (w_commits s1 (r_commits s ++ [mkCmt (r_idx s1) parents])).
 Proof.
-  intros o s s'. unfold commit.
-  destruct (cm_all o && cm_amend o); [discriminate|].
-  destruct (negb (cm_author o) && negb (r_user s)); [discriminate|].
-  assert (Hrest : forall s1 : rstate, r_commits s1 = r_commits s ->
-    (match (if cm_amend o
-            then match rhead_commit s1 with
-                 | None => inl XRefNotFound
-                 | Some h => match rcommit s1 h with None => inl XObjectNotFound | Some c => inr (c_parents c) end
-                 end
-            else inr (match rhead_commit s with Some h => [h] | None => [] end)) with
-     | inl e0 => (Some e0, s1)
-     | inr parents =>
-       if is_nil parents && is_nil (r_idx s1) && negb (cm_allow_empty o) then (Some XEmptyCommit, s1)
-       else match parents with
-            | [] => commit_finish parents s1
-            | p0 :: _ =>
-              match rtree_of s1 p0 with
-              | None => (Some XObjectNotFound, s1)
-              | Some pt =>
-                if fmap_eqb (r_idx s1) pt && negb (cm_allow_empty o) then (Some XEmptyCommit, s1)
-                else commit_finish parents s1
-              end
-            end
-     end) = (None, s') ->
-    exists parents, s' = rupdate_head (Z.of_nat (List.length (r_commits s)))
-                                      (w_commits s1 (r_commits s ++ [mkCmt (r_idx s1) parents]))).
-  { intros s1 Hc.
-    destruct (if cm_amend o then _ else _) as [e0|parents]; [discriminate|].
-    destruct (is_nil parents && is_nil (r_idx s1) && negb (cm_allow_empty o)); [discriminate|].
-    assert (Hfin : commit_finish parents s1 = (None, s') ->
-                   s' = rupdate_head (Z.of_nat (List.length (r_commits s)))
-                                     (w_commits s1 (r_commits s ++ [mkCmt (r_idx s1) parents]))).
-    { unfold commit_finish. rewrite Hc. intro H. now inversion H. }
-    destruct parents as [|p0 ps]; [intro H; eexists; apply Hfin; exact H|].
-    destruct (rtree_of s1 p0); [|discriminate].
-    destruct (fmap_eqb (r_idx s1) f && negb (cm_allow_empty o)); [discriminate|].
-    intro H; eexists; apply Hfin; exact H. }
-  destruct (cm_all o).
-  - destruct (rhead_tree s); try discriminate; intro H; apply (Hrest (w_idx s (auto_add s)) eq_refl) in H; exact H.
-  - intro H. apply (Hrest s eq_refl) in H. exact H.
+  intros o s s'. unfold commit, commit_stores_index.
+  destruct (cm_all o && cm_amend o); cbn [negb andb]; [discriminate|].
+  destruct (negb (cm_author o) && negb (r_user s)); cbn [negb andb]; [discriminate|].
+  destruct (cm_all o); cbn [andb].
+  - destruct (rhead_tree s); cbn [negb]; try discriminate; intro H; apply commit_tail_ok in H; exact H.
+  - intro H. apply commit_tail_ok in H. exact H.
 Qed.
 
-Lemma eff_commit_sound : forall o s s',
-  commit o s = (None, s') -> apply_effs (eff_commit o s s') s = s'.
+(* the stores of Commit replay to the state it returns, refused or not *)
+Lemma eff_commit_sound : forall o s r s',
+  commit o s = (r, s') -> apply_effs (eff_commit o s s' (negb (is_some r))) s = s'.
 Proof.
-  intros o s s' H. destruct (commit_ok_shape _ _ _ H) as (parents & Hs). cbv zeta in Hs.
-  unfold eff_commit. rewrite apply_effs_app.
-  set (s1 := if cm_all o then w_idx s (auto_add s) else s) in *.
-  assert (H1 : apply_effs (if cm_all o then [FSetIndex (auto_add s)] else []) s = s1).
-  { unfold s1. destruct (cm_all o); reflexivity. }
-  rewrite H1.
-  assert (Hl : last (r_commits s') (mkCmt [] []) = mkCmt (r_idx s1) parents).
-  { rewrite Hs. destruct (rupdate_head_frame (Z.of_nat (List.length (r_commits s)))
-                            (w_commits s1 (r_commits s ++ [mkCmt (r_idx s1) parents]))) as (_ & _ & Hc & _).
-    rewrite Hc. cbn. apply last_last. }
-  rewrite Hl.
-  change (apply_effs (FAddCommit ?c :: ?r) ?x) with (apply_effs r (w_commits x (r_commits x ++ [c]))).
-  assert (Hc1 : r_commits s1 = r_commits s) by (unfold s1; destruct (cm_all o); reflexivity).
-  rewrite Hc1. rewrite Hs. apply eff_update_head_sound.
-  unfold s1. destruct (cm_all o); reflexivity.
+  intros o s r s' H. unfold eff_commit. rewrite apply_effs_app.
+  set (s1 := if commit_stores_index o s then w_idx s (auto_add s) else s).
+  assert (H1 : apply_effs (if commit_stores_index o s then [FSetIndex (auto_add s)] else []) s = s1).
+  { unfold s1. destruct (commit_stores_index o s); reflexivity. }
+  rewrite H1. destruct r as [e|]; cbn [is_some negb].
+  - apply commit_err_state in H. subst s'. reflexivity.
+  - destruct (commit_ok_shape _ _ _ H) as (parents & Hs). fold s1 in Hs.
+    assert (Hl : last (r_commits s') (mkCmt [] []) = mkCmt (r_idx s1) parents).
+    { rewrite Hs. destruct (rupdate_head_frame (Z.of_nat (List.length (r_commits s)))
+                              (w_commits s1 (r_commits s ++ [mkCmt (r_idx s1) parents]))) as (_ & _ & Hc & _).
+      rewrite Hc. cbn. apply last_last. }
+    rewrite Hl.
+    change (apply_effs (FAddCommit ?c :: ?r) ?x) with (apply_effs r (w_commits x (r_commits x ++ [c]))).
+    assert (Hc1 : r_commits s1 = r_commits s) by (unfold s1; destruct (commit_stores_index o s); reflexivity).
+    rewrite Hc1. rewrite Hs. apply eff_update_head_sound.
+    unfold s1. destruct (commit_stores_index o s); reflexivity.
 Qed.
 
 Lemma merge_ok_shape : forall t ff s s', merge t ff s = (None, s') -> s' = rupdate_head t s.
@@ -211,86 +197,126 @@ Proof.
     reflexivity.
 Qed.
 
-Lemma pull_pre_ok_state : forall e s rc s1,
-  pull_pre e s = (None, (rc, s1)) -> s1 = w_refs s (fst (fetch_refs (pe_refs e) (r_refs s))).
+Lemma eff_fetch_sound : forall e s x rc s1,
+  pull_pre e s = (x, (rc, s1)) -> apply_effs (eff_fetch e) s = s1.
 Proof.
-  intros e s rc s1. unfold pull_pre.
-  destruct (negb (pe_conf e)); [discriminate|].
-  destruct (negb (pe_reach e)); [discriminate|].
-  destruct (is_nil (pe_refs e)); [discriminate|].
-  destruct (resolve_remote e) as [r|]; [|discriminate].
+  intros e s x rc s1. unfold pull_pre, eff_fetch.
+  destruct (negb (pe_conf e)); cbn [orb]; [intro H; now inversion H|].
+  destruct (negb (pe_reach e)); cbn [orb]; [intro H; now inversion H|].
+  destruct (is_nil (pe_refs e)); [intro H; now inversion H|].
+  assert (Hs : apply_effs (map (fun nc : bytes * Z => FSetRef (tracking_name (fst nc)) (snd nc)) (pe_refs e)) s
+               = w_refs s (fst (fetch_refs (pe_refs e) (r_refs s)))).
+  { unfold fetch_refs. apply fetch_refs_effs. }
+  rewrite Hs.
+  destruct (resolve_remote e) as [r|]; [|intro H; now inversion H].
   destruct (rhead_commit _) as [h|]; [|intro H; now inversion H].
-  destruct (rcommit _ h); [|discriminate].
-  destruct (_ && _); [discriminate|].
-  destruct (negb _); [discriminate|]. intro H; now inversion H.
+  destruct (rcommit _ h); [|intro H; now inversion H].
+  destruct (_ && _); [intro H; now inversion H|].
+  destruct (negb _); intro H; now inversion H.
 Qed.
 
-Lemma eff_pull_sound : forall e s s', pull e s = (None, s') -> apply_effs (eff_pull e s) s = s'.
+(* the stores of Pull replay to the state it returns, refused or not *)
+Lemma eff_pull_sound : forall e s r s', pull e s = (r, s') -> apply_effs (eff_pull e s) s = s'.
 Proof.
-  intros e s s'. unfold pull, eff_pull.
-  destruct (pull_pre e s) as [[x0|] [rc s1]] eqn:Hp; [discriminate|].
-  destruct (runstaged s1) eqn:Hu; [discriminate|].
-  pose proof (pull_pre_ok_state _ _ _ _ Hp) as Hs1.
-  unfold reset_merge.
-  assert (Ht : rtree_of (rupdate_head rc s1) rc = rtree_of s1 rc).
-  { unfold rupdate_head. destruct (r_head s1); reflexivity. }
-  rewrite Ht. destruct (rtree_of s1 rc) as [t|]; [|discriminate].
-  assert (Hu' : runstaged (rupdate_head rc s1) = false).
-  { rewrite <- Hu. unfold rupdate_head. destruct (r_head s1); reflexivity. }
-  rewrite Hu'.
-  destruct (rset_head_commit rc (rupdate_head rc s1)) as [[e1|] s2] eqn:Eh; [discriminate|].
-  apply rset_head_commit_ok in Eh.
-  destruct (rupdate_head_frame rc s1) as (Hi1 & Hw1 & _ & Hh1).
-  destruct (rupdate_head_frame rc (rupdate_head rc s1)) as (Hi2 & Hw2 & _ & _).
-  assert (Hidx : r_idx s2 = r_idx s1) by (rewrite Eh, Hi2, Hi1; reflexivity).
-  assert (Hwt : r_wt s2 = r_wt s1) by (rewrite Eh, Hw2, Hw1; reflexivity).
-  rewrite Hidx, Hwt.
-  rewrite !apply_effs_app.
-  assert (Hf : apply_effs (map (fun nc : bytes * Z => FSetRef (tracking_name (fst nc)) (snd nc)) (pe_refs e)) s = s1).
-  { rewrite Hs1. unfold fetch_refs. apply fetch_refs_effs. }
-  rewrite Hf.
-  rewrite (eff_update_head_sound rc s1 s1 eq_refl).
-  assert (Hh : r_head s1 = r_head (rupdate_head rc s1) \/ exists c0, r_head s1 = HDet c0).
-  { destruct (r_head s1) eqn:E; [left|right; eauto]. rewrite Hh1. reflexivity. }
-  assert (H2 : apply_effs (eff_update_head rc s1) (rupdate_head rc s1) = s2).
-  { rewrite Eh. destruct Hh as [Hh|(c0 & Hh)].
-    - now apply eff_update_head_sound.
-    - unfold eff_update_head, rupdate_head. rewrite Hh. cbn. reflexivity. }
-  rewrite H2.
-  change (apply_effs (FSetIndex ?i :: ?r) ?x) with (apply_effs r (w_idx x i)).
-  destruct (snd (reset_index t (r_idx s1))) as [|q0 l0] eqn:Er.
+  intros e s r s'. unfold pull, eff_pull, eff_pull_tail. rewrite apply_effs_app.
+  destruct (pull_pre e s) as [[x0|] [rc s1]] eqn:Hp; rewrite (eff_fetch_sound _ _ _ _ _ Hp).
   - intro H. inversion H. reflexivity.
-  - unfold reset_worktree.
-    set (wch := filter (fun p => existsb (beqb p) (q0 :: l0)) (changed_paths (r_wt s1) (fst (reset_index t (r_idx s1))))).
-    destruct (fold_left (checkout_change t) wch (None, (fst (reset_index t (r_idx s1)), r_wt s1)))
-      as [[e2|] [ix' w']] eqn:Hfold; cbn [fst snd option_map]; [discriminate|].
-    intro H. inversion H; subst s'.
-    rewrite (eff_worktree_sound t wch _ (r_wt s1) ix' w' (w_idx s2 (fst (reset_index t (r_idx s1)))) Hfold).
-    + reflexivity.
-    + cbn. exact Hwt.
+  - destruct (runstaged s1) eqn:Hu; [intro H; inversion H; reflexivity|].
+    rewrite apply_effs_app, (eff_update_head_sound rc s1 s1 eq_refl).
+    destruct (reset_merge rc (rupdate_head rc s1)) as [[e1|] s2] eqn:Hr.
+    + intro H. inversion H; subst. apply reset_merge_err_unchanged in Hr. subst s'. reflexivity.
+    + intro H. inversion H; subst s2 r. clear H. revert Hr.
+      unfold reset_merge.
+      assert (Ht : rtree_of (rupdate_head rc s1) rc = rtree_of s1 rc).
+      { unfold rupdate_head. destruct (r_head s1); reflexivity. }
+      rewrite Ht. destruct (rtree_of s1 rc) as [t|]; [|discriminate].
+      assert (Hu' : runstaged (rupdate_head rc s1) = false).
+      { rewrite <- Hu. unfold rupdate_head. destruct (r_head s1); reflexivity. }
+      rewrite Hu'.
+      destruct (rset_head_commit rc (rupdate_head rc s1)) as [[e1|] s2] eqn:Eh; [discriminate|].
+      apply rset_head_commit_ok in Eh.
+      destruct (rupdate_head_frame rc s1) as (Hi1 & Hw1 & _ & Hh1).
+      destruct (rupdate_head_frame rc (rupdate_head rc s1)) as (Hi2 & Hw2 & _ & _).
+      assert (Hidx : r_idx s2 = r_idx s1) by (rewrite Eh, Hi2, Hi1; reflexivity).
+      assert (Hwt : r_wt s2 = r_wt s1) by (rewrite Eh, Hw2, Hw1; reflexivity).
+      rewrite Hidx, Hwt.
+      rewrite apply_effs_app.
+      assert (Hh : r_head s1 = r_head (rupdate_head rc s1) \/ exists c0, r_head s1 = HDet c0).
+      { destruct (r_head s1) eqn:E; [left|right; eauto]. rewrite Hh1. reflexivity. }
+      assert (H2 : apply_effs (eff_update_head rc s1) (rupdate_head rc s1) = s2).
+      { rewrite Eh. destruct Hh as [Hh|(c0 & Hh)].
+        - now apply eff_update_head_sound.
+        - unfold eff_update_head, rupdate_head. rewrite Hh. cbn. reflexivity. }
+      rewrite H2.
+      change (apply_effs (FSetIndex ?i :: ?r) ?x) with (apply_effs r (w_idx x i)).
+      destruct (snd (reset_index t (r_idx s1))) as [|q0 l0] eqn:Er.
+      * intro H. inversion H. reflexivity.
+      * unfold reset_worktree.
+        set (wch := filter (fun p => existsb (beqb p) (q0 :: l0)) (changed_paths (r_wt s1) (fst (reset_index t (r_idx s1))))).
+        destruct (fold_left (checkout_change t) wch (None, (fst (reset_index t (r_idx s1)), r_wt s1)))
+          as [[e2|] [ix' w']] eqn:Hfold; cbn [fst snd option_map]; [discriminate|].
+        intro H. inversion H; subst s'.
+        rewrite (eff_worktree_sound t wch _ (r_wt s1) ix' w' (w_idx s2 (fst (reset_index t (r_idx s1)))) Hfold).
+        -- reflexivity.
+        -- cbn. exact Hwt.
 Qed.
 
 (* ---------- the stores of an operation replay to the state it returns *)
 
 Lemma effects_sound : forall o s,
-  is_porcelain o = true -> fst (xstep o s) = None -> apply_effs (effects o s) s = snd (xstep o s).
+  is_porcelain o = true -> apply_effs (effects o s) s = snd (xstep o s).
 Proof.
-  intros o s Hp Hn. unfold effects. rewrite Hn.
-  destruct (xstep o s) as [r s'] eqn:Hx. cbn [fst snd] in *. subst r.
+  intros o s Hp. unfold effects. cbv zeta.
+  destruct (xstep o s) as [r s'] eqn:Hx. cbn [fst snd] in *.
   destruct o; cbn [xstep is_porcelain] in *; try discriminate.
-  - eapply eff_restore_sound; eauto.
-  - cbn. symmetry. eapply add_path_ok_shape; eauto.
-  - cbn. symmetry. eapply add_path_ok_shape; eauto.
-  - now apply eff_commit_sound.
-  - apply merge_ok_shape in Hx. subst s'. now apply eff_update_head_sound.
-  - now apply eff_pull_sound.
+  - destruct r as [x|]; [apply restore_err_unchanged in Hx; now subst | eapply eff_restore_sound; eauto].
+  - destruct r as [x|]; [apply add_path_err_unchanged in Hx; now subst | cbn; symmetry; eapply add_path_ok_shape; eauto].
+  - destruct r as [x|]; [apply add_path_err_unchanged in Hx; now subst | cbn; symmetry; eapply add_path_ok_shape; eauto].
+  - unfold add_bad_options in Hx. inversion Hx. reflexivity.
+  - eapply eff_commit_sound; eauto.
+  - destruct r as [x|]; [apply merge_err_unchanged in Hx; now subst |].
+    apply merge_ok_shape in Hx. subst s'. now apply eff_update_head_sound.
+  - eapply eff_pull_sound; eauto.
 Qed.
 
-(* a refused operation of the model performs no store at all *)
-Lemma effects_refused : forall o s x, fst (xstep o s) = Some x -> effects o s = [].
-Proof. intros o s x H. unfold effects. now rewrite H. Qed.
-
 (* ---------- faults between stores *)
+
+(* the stores of the fetch half touch remote-tracking references only *)
+Lemma fetch_prefix_observable : forall adv j s,
+  observable (apply_effs (firstn j (map (fun nc : bytes * Z => FSetRef (tracking_name (fst nc)) (snd nc)) adv)) s)
+  = observable s.
+Proof.
+  induction adv as [|[n c] adv IH]; intros j s; destruct j; cbn [map firstn]; try reflexivity.
+  change (apply_effs (?f :: ?r) s) with (apply_effs r (apply_eff s f)). rewrite IH.
+  cbn [apply_eff fst snd]. unfold observable, w_refs. cbn [r_head r_refs r_idx r_wt].
+  now rewrite (local_refs_insert_remote (r_refs s) (tracking_name n) c (tracking_is_remote n)).
+Qed.
+
+(* a refused operation (under the guards of the atomicity theorems) has made no
+   observable store: whatever prefix of its stores a fault lets through *)
+Lemma fault_refused_atomic : forall o s x j,
+  op_guard o s = true -> fst (xstep o s) = Some x -> observable (after_fault j o s) = observable s.
+Proof.
+  intros o s x j Hg Hn. unfold after_fault, effects. cbv zeta.
+  destruct o; cbn [xstep op_guard] in *.
+  - (* XRestore *) rewrite Hn. destruct j; reflexivity.
+  - (* XAdd *) rewrite Hn. destruct j; reflexivity.
+  - (* XAddAll *) rewrite Hn. destruct j; reflexivity.
+  - (* XAddBad *) destruct j; reflexivity.
+  - (* XCommit *) unfold eff_commit, commit_stores_index. rewrite Hn. cbn [is_some negb].
+    apply negb_true_iff in Hg. rewrite Hg, andb_false_r. cbn [andb app]. destruct j; reflexivity.
+  - (* XMerge *) rewrite Hn. destruct j; reflexivity.
+  - (* XPull *) unfold eff_pull, eff_fetch.
+    assert (Hrest : eff_pull_tail e s = []).
+    { revert Hn. unfold pull, eff_pull_tail. destruct (pull_pre e s) as [[x0|] [rc s1]] eqn:Hp; [reflexivity|].
+      destruct (runstaged s1) eqn:Hu; [reflexivity|].
+      destruct (pull_no_late_refusal e s rc s1 Hg Hp Hu) as (s2 & H2). rewrite H2. discriminate. }
+    rewrite Hrest, app_nil_r.
+    destruct (negb (pe_conf e) || negb (pe_reach e) || is_nil (pe_refs e)); [now destruct j|].
+    apply fetch_prefix_observable.
+  - (* XWrite *) discriminate.
+  - (* XRm *) discriminate.
+Qed.
 
 (* operations with one observable store: Add, Merge, Commit without All *)
 Definition single_store (o : xop) : bool :=
@@ -300,26 +326,26 @@ Definition single_store (o : xop) : bool :=
   | _ => false
   end.
 
-Lemma firstn_all_ge : forall {A} (l : list A) j, (List.length l <= j)%nat -> firstn j l = l.
-Proof. intros. now apply firstn_all2. Qed.
-
 Lemma fault_single_store_atomic : forall o s j,
-  single_store o = true -> fst (xstep o s) = None ->
+  single_store o = true ->
   observable (after_fault j o s) = observable s \/ after_fault j o s = snd (xstep o s).
 Proof.
-  intros o s j Hs Hn. unfold after_fault.
+  intros o s j Hs. unfold after_fault.
   assert (Hp : is_porcelain o = true) by (destruct o; try discriminate; reflexivity).
-  pose proof (effects_sound o s Hp Hn) as Hsound.
+  pose proof (effects_sound o s Hp) as Hsound.
   destruct (Nat.le_gt_cases (List.length (effects o s)) j) as [Hge|Hlt].
   - right. rewrite firstn_all2 by assumption. exact Hsound.
-  - left. revert Hlt. unfold effects. rewrite Hn.
+  - left. revert Hlt. unfold effects. cbv zeta.
     destruct o; cbn [single_store] in Hs; try discriminate.
-    + (* XAdd *) cbn [List.length]. intro Hlt. assert (j = 0)%nat as -> by lia. reflexivity.
-    + (* XAddAll *) cbn [List.length]. intro Hlt. assert (j = 0)%nat as -> by lia. reflexivity.
-    + (* XCommit *) unfold eff_commit. apply negb_true_iff in Hs. rewrite Hs. cbn [app].
+    + (* XAdd *) destruct (fst (xstep _ s)); cbn [List.length]; intro Hlt; [lia|]. assert (j = 0)%nat as -> by lia. reflexivity.
+    + (* XAddAll *) destruct (fst (xstep _ s)); cbn [List.length]; intro Hlt; [lia|]. assert (j = 0)%nat as -> by lia. reflexivity.
+    + (* XAddBad *) cbn [List.length]. intro Hlt. lia.
+    + (* XCommit *) unfold eff_commit, commit_stores_index. apply negb_true_iff in Hs. rewrite Hs, andb_false_r. cbn [andb app].
+      destruct (negb (is_some (fst (xstep (XCommit o) s)))); [|cbn [List.length]; intro; lia].
       unfold eff_update_head. destruct (r_head s); cbn [List.length]; intro Hlt;
         (destruct j as [|[|j]]; [reflexivity | reflexivity | lia]).
-    + (* XMerge *) unfold eff_update_head. destruct (r_head s); cbn [List.length]; intro Hlt;
+    + (* XMerge *) destruct (fst (xstep _ s)); [cbn [List.length]; intro; lia|].
+      unfold eff_update_head. destruct (r_head s); cbn [List.length]; intro Hlt;
         (assert (j = 0)%nat as -> by lia; reflexivity).
 Qed.
 
